@@ -60,6 +60,10 @@ def _DIV(a, b):
     """true division with real-number semantics: int/int is exact"""
     if type(a) is int and type(b) is int and b != 0:
         return Fraction(a, b)
+    if isinstance(b, Fraction) and b == 0:
+        # numpy float semantics: x / 0.0 is inf/nan (a warning, not an exception)
+        from .symcore import POISON
+        return POISON
     return a / b
 
 
